@@ -31,11 +31,8 @@
    * C09_deprecated: none beyond `kind ≠ GI_INFO_TYPE_INVALID_0` (no info has that type).  Since /repo
      6a5b079 the switch of g_base_info_is_deprecated has the GI_INFO_TYPE_UNION case; the model reads the
      case groups from Gen/InfoSwitch.lean (translators/gen_info_switch.py).
-   * C09_struct_func_name_partial: for GI_INFO_TYPE_BOXED the stored copy/free string offset is 0
-     (girnode.c never writes one for <glib:boxed>; checked per typelib, `boxed_funcs_unset`).  The
-     accessors' GI_IS_STRUCT_INFO guard rejects boxed infos, so a hand-made typelib with a non-zero
-     offset there is reported as NULL (`C09_struct_func_name_counterexample`); the same guard makes
-     g-ir-generate abort on every boxed entry (PENDING finding `generate:boxed:crash`).
+   * C09_struct_func_name: none (since /repo d99d60a GI_IS_STRUCT_INFO admits GI_INFO_TYPE_BOXED; the
+     admitted kinds are regenerated from gistructinfo.h into Gen/InfoSwitch.lean).
   girwriter.c (typelib → GIR text) is NOT modelled: validated by the harness only.
 -/
 import GIVerif.Lemmas.InfoAccess
@@ -406,37 +403,33 @@ theorem C09_deprecated_union :
 
 /-! ### copy / free function of records and boxed types -/
 
-/-- the property at full strength: for both kinds of StructBlob infos the accessor reports the stored string -/
-def C09_struct_func_name_full : Prop :=
-  ∀ (c : Ctx) (kind strOff : Nat), kind = K "GI_INFO_TYPE_STRUCT" ∨ kind = K "GI_INFO_TYPE_BOXED" →
-    structFuncName c kind strOff = optStr c.t strOff
-
 /-- g_struct_info_get_copy_function / g_struct_info_get_free_function report what the StructBlob stores
-    (the string, or NULL for offset 0) for GI_INFO_TYPE_STRUCT, and for GI_INFO_TYPE_BOXED as long as
-    the blob stores no function there (what the compiler writes). -/
-theorem C09_struct_func_name_partial (c : Ctx) (kind strOff : Nat)
-    (_hk : kind = K "GI_INFO_TYPE_STRUCT" ∨ kind = K "GI_INFO_TYPE_BOXED")
-    (h : kind = K "GI_INFO_TYPE_STRUCT" ∨ strOff = 0) :
+    (the string, or NULL for offset 0) for both kinds of info a StructBlob stands for, GI_INFO_TYPE_STRUCT and
+    GI_INFO_TYPE_BOXED.  The kinds admitted by the accessors' GI_IS_STRUCT_INFO guard are regenerated from
+    gistructinfo.h on every run (`Gen.isStructInfoKinds`): dropping BOXED from the macro again breaks this. -/
+theorem C09_struct_func_name (c : Ctx) (kind strOff : Nat)
+    (hk : kind = K "GI_INFO_TYPE_STRUCT" ∨ kind = K "GI_INFO_TYPE_BOXED") :
     structFuncName c kind strOff = optStr c.t strOff := by
   unfold structFuncName
-  rcases h with h | h
-  · simp [h]
+  rcases hk with h | h
   · subst h
-    by_cases hk : (kind == K "GI_INFO_TYPE_STRUCT") = true
-    · simp [hk]
-    · simp [hk, optStr]
+    have hg : Gen.isStructInfoKinds.any (fun l => enumVal "GIInfoType" l == K "GI_INFO_TYPE_STRUCT") = true := by
+      decide +kernel
+    simp [hg]
+  · subst h
+    have hg : Gen.isStructInfoKinds.any (fun l => enumVal "GIInfoType" l == K "GI_INFO_TYPE_BOXED") = true := by
+      decide +kernel
+    simp [hg]
 
-/-- The extra hypothesis cannot be dropped: on the 6 bytes `00 00 00 00 'a' 00` a BOXED info whose
-    copy_func offset is 4 stores the string "a", the accessor says NULL (GI_IS_STRUCT_INFO fails). -/
-theorem C09_struct_func_name_counterexample :
-    ¬ C09_struct_func_name_full
-    ∧ optStr (⟨#[0, 0, 0, 0, 97, 0]⟩ : Bytes) 4 = "a"
-    ∧ structFuncName (mkCtx ⟨#[0, 0, 0, 0, 97, 0]⟩) (K "GI_INFO_TYPE_BOXED") 4 = "(null)" := by
-  refine ⟨?_, by decide +kernel, by decide +kernel⟩
-  intro h
-  have := h (mkCtx ⟨#[0, 0, 0, 0, 97, 0]⟩) (K "GI_INFO_TYPE_BOXED") 4 (Or.inr rfl)
-  revert this
-  decide +kernel
+/-- and for every other kind of info the guard fails: NULL, whatever the bytes say -/
+theorem C09_struct_func_name_other (c : Ctx) (kind strOff : Nat)
+    (hlt : kind < 20) (h1 : kind ≠ K "GI_INFO_TYPE_STRUCT") (h2 : kind ≠ K "GI_INFO_TYPE_BOXED") :
+    structFuncName c kind strOff = "(null)" := by
+  have hg : ∀ k, k < 20 → k ≠ K "GI_INFO_TYPE_STRUCT" → k ≠ K "GI_INFO_TYPE_BOXED" →
+      (Gen.isStructInfoKinds.any (fun l => enumVal "GIInfoType" l == k)) = false := by
+    decide +kernel
+  unfold structFuncName
+  simp [hg kind hlt h1 h2]
 
 /-! ### non-vacuity: concrete instances of the hypotheses and conclusions -/
 
@@ -465,9 +458,11 @@ example : iterAttributes (fun i => [8, 40, 40, 40, 72].getD i 0) 5 24 none = [] 
 example : BsearchOk (fun i => [8, 40, 40, 40, 72].getD i 0) 5 40 (some 2) := ⟨by omega, by decide⟩
 -- C09_deprecated: a union (kind 11) is in range and reads bit 16 of its blob; a vfunc (14) has no bit
 example : (11 < 20 ∧ 11 ≠ 10) ∧ deprecatedField 11 = some (16, 1) ∧ deprecatedField 14 = none := by decide +kernel
--- a record with a copy function "a" at string offset 4, and a boxed type storing none
+-- a record and a boxed type with a copy function "a" at string offset 4; a union info is refused by the guard
 example : structFuncName (mkCtx ⟨#[0, 0, 0, 0, 97, 0]⟩) (K "GI_INFO_TYPE_STRUCT") 4 = "a" := by decide +kernel
-example : structFuncName (mkCtx ⟨#[0, 0, 0, 0, 97, 0]⟩) (K "GI_INFO_TYPE_BOXED") 0 = optStr ⟨#[0, 0, 0, 0, 97, 0]⟩ 0 := by
+example : structFuncName (mkCtx ⟨#[0, 0, 0, 0, 97, 0]⟩) (K "GI_INFO_TYPE_BOXED") 4 = "a"
+    ∧ structFuncName (mkCtx ⟨#[0, 0, 0, 0, 97, 0]⟩) (K "GI_INFO_TYPE_BOXED") 0 = "(null)"
+    ∧ structFuncName (mkCtx ⟨#[0, 0, 0, 0, 97, 0]⟩) (K "GI_INFO_TYPE_UNION") 4 = "(null)" := by
   decide +kernel
 -- utf8 (tag 13) pointer: simple; an offset such as 0x1a4 is complex
 example : typeIsSimple (encodeSimple 13 1) = true ∧ simpleTag (encodeSimple 13 1) = 13 := by decide +kernel
